@@ -77,11 +77,22 @@ def c_glob_charclass(v):
             and "[" in s and "]" in s[s.index("["):])
 
 
+def c_hidden_name_not_globbed(v):
+    """An existing entity whose name starts with '.' is not returned by a '*' search of FindInPaths (glob skips dot names);
+    concrete and '.x*' searches do find it."""
+    c = _case(v)
+    sid = c.get("sid") or ""
+    d = v.get("detail", "")
+    return (v.get("kind", "").split(":")[-1] == "search_vs_existence" and sid.split("/")[-1].startswith(".")
+            and sid.split("/")[-1] not in (".", "..") and d.startswith("in find(") and d.endswith("/*): False, model exists: True"))
+
+
 CLASSIFIERS = {
     "trailing_newline_sid": c_trailing_newline_sid,
     "trailing_newline_path": c_trailing_newline_path,
     "trailing_newline_nav": c_trailing_newline_nav,
     "glob_charclass": c_glob_charclass,
+    "hidden_name_not_globbed": c_hidden_name_not_globbed,
 }
 
 
